@@ -2,6 +2,8 @@
 #include "gates.hpp"
 #include <sstream>
 #include <thread>
+#include <sys/wait.h>
+#include <sys/stat.h>
 VH_MAIN_GLOBALS
 using namespace vh;
 
@@ -218,10 +220,64 @@ static void fresh_thread_evaluations(World &w, int reps) {
     delete_gate_bootstrapping_ciphertext_array(3, in);
 }
 
+// the server role: a process that never seeds the generator, never generates a key and never encrypts. A forked child plays the
+// client (seeds, generates, encrypts, exports to files); this process only imports the cloud key and the ciphertexts and
+// evaluates. The generator is still in the state it had when the process started, and must stay there; the first evaluation of
+// the process is the interesting one, so every run starts with another entry point (--first).
+static int server_role(Args &args) {
+    uint64_t seed = args.i("seed", 1); int lambda = args.i("lambda", 0), first = args.i("first", 0);
+    std::string op = args.s("out", "-"); size_t sl = op.rfind('/');
+    char dir[512]; snprintf(dir, sizeof dir, "%s/c15-server-%d", sl == std::string::npos ? "/tmp" : op.substr(0, sl).c_str(), (int) getpid());
+    mkdir(dir, 0700);
+    std::string kf = std::string(dir) + "/cloud.key", sf = std::string(dir) + "/secret.key", cf = std::string(dir) + "/inputs.ct";
+    fflush(out.f);
+    pid_t pid = fork();
+    if (pid == 0) {
+        seed_library(seed * 23 + 1);
+        TFheGateBootstrappingParameterSet *dp = nullptr; PSet *ps = nullptr; const TFheGateBootstrappingParameterSet *gb;
+        if (lambda) { dp = default_params(lambda); gb = dp; } else { ps = new PSet(10, 1024, 1, 3, 7, 4, 3, ldexp(1., -20), ldexp(1., -30)); gb = ps->gb; }
+        TFheGateBootstrappingSecretKeySet *sk = new_random_gate_bootstrapping_secret_keyset(gb);
+        FILE *f = fopen(kf.c_str(), "wb"); export_tfheGateBootstrappingCloudKeySet_toFile(f, &sk->cloud); fclose(f);
+        f = fopen(sf.c_str(), "wb"); export_tfheGateBootstrappingSecretKeySet_toFile(f, sk); fclose(f);
+        LweSample *c = new_gate_bootstrapping_ciphertext_array(3, gb); int bits[3] = {1, 0, 1};
+        f = fopen(cf.c_str(), "wb"); for (int i = 0; i < 3; i++) { bootsSymEncrypt(c + i, bits[i], sk); export_gate_bootstrapping_ciphertext_toFile(f, c + i, gb); } fclose(f);
+        _exit(0);
+    }
+    int st = 0; waitpid(pid, &st, 0);
+    if (!WIFEXITED(st) || WEXITSTATUS(st)) { fprintf(stderr, "client child failed\n"); return 2; }
+    const std::string g_start = gen_state();
+    VH_OP("server:import");
+    FILE *f = fopen(kf.c_str(), "rb"); TFheGateBootstrappingCloudKeySet *ck = new_tfheGateBootstrappingCloudKeySet_fromFile(f); fclose(f);
+    const TFheGateBootstrappingParameterSet *gb = ck->params;
+    LweSample *in = new_gate_bootstrapping_ciphertext_array(3, gb), *r = new_gate_bootstrapping_ciphertext_array(G_COUNT, gb);
+    f = fopen(cf.c_str(), "rb"); for (int i = 0; i < 3; i++) import_gate_bootstrapping_ciphertext_fromFile(f, in + i, gb); fclose(f);
+    std::string cfg = std::string(flavor_name()) + "/" + backend_name() + (lambda ? "/default" + std::to_string(lambda <= 80 ? 80 : 128) : "/small") + "/server-role";
+    std::string before = gen_state();
+    for (int q = 0; q < G_COUNT; q++) {
+        int g = (first + q) % G_COUNT;
+        VH_OP("server:boots%s:%s", GATES[g].name, q == 0 ? "first evaluation of the process" : "later");
+        gate_eval(g, r + g, in, in + 1, in + 2, 1, ck);
+        std::string after = gen_state(); out.evaluations++;
+        if (after != before) { out.viol(std::string("untouched:generator-advanced:boots") + GATES[g].name, J().s("config", cfg).s("gate", GATES[g].name).s("history", q == 0 ? "first evaluation in a process that never seeded, generated or encrypted" : "server role").b("generator_was_still_in_its_start_state", before == g_start)); before = after; }
+    }
+    { TorusPolynomial *a = new_TorusPolynomial(1024), *rr = new_TorusPolynomial(1024); IntPolynomial *ip = new_IntPolynomial(1024); for (int j = 0; j < 1024; j++) { ip->coefs[j] = j % 3 - 1; a->coefsT[j] = j * 7919; }
+      torusPolynomialMultFFT(rr, ip, a); out.evaluations++; if (gen_state() != before) out.viol("untouched:generator-advanced:torusPolynomialMultFFT", J().s("config", cfg).s("history", "server role"));
+      delete_IntPolynomial(ip); delete_TorusPolynomial(rr); delete_TorusPolynomial(a); }
+    // only now the secret key: the results are right
+    f = fopen(sf.c_str(), "rb"); TFheGateBootstrappingSecretKeySet *sk = new_tfheGateBootstrappingSecretKeySet_fromFile(f); fclose(f);
+    for (int g = 0; g < G_COUNT; g++) { out.evaluations++; if (bootsSymDecrypt(r + g, sk) != gate_truth(g, 1, 0, 1)) out.viol(std::string("untouched:server-role-wrong-output:boots") + GATES[g].name, J().s("config", cfg)); }
+    out.cell(cfg + ":first=" + GATES[first % G_COUNT].name); out.sample(J().s("mode", "server").s("config", cfg).s("first_entry_point", GATES[first % G_COUNT].name).b("generator_unchanged_from_process_start", gen_state() == g_start));
+    delete_gate_bootstrapping_secret_keyset(sk); delete_gate_bootstrapping_ciphertext_array(G_COUNT, r); delete_gate_bootstrapping_ciphertext_array(3, in); delete_gate_bootstrapping_cloud_keyset(ck);
+    unlink(kf.c_str()); unlink(sf.c_str()); unlink(cf.c_str()); rmdir(dir);
+    out.finish();
+    return 0;
+}
+
 int main(int argc, char **argv) {
     Args args(argc, argv);
     out.open(args.s("out", "-"));
     install_crash_handler();
+    if (args.s("mode", "") == "server") return server_role(args);
     uint64_t seed = args.i("seed", 1);
     int lambda = args.i("lambda", 0);
     if (args.i("prelude", 0)) { rng.reseed(seed * 4241 + 3); seed_library(seed * 4243 + 5); history_other_parameter_set(rng); }
